@@ -128,6 +128,15 @@ reg("C13", "exploration",
     "Frames are packed with struct in mc/checks/c13.py (pre-v14 and v14 layouts), independent of bellows types; recorders replace packet_received / handle_join / handle_leave on the instance.",
     "DESIGN.md section 3 C13")
 
+reg("C12", "model_checking",
+    "deviation-bounded stateless search over the real ControllerApplication.send_packet with a frame-level NCP simulator, virtual clock",
+    "Two (thorough: three) concurrent packets from {plain / source-routed / extended-timeout / IEEE-addressed known+unknown unicast, multicast, broadcast} per version (4, 8, 9, 14; thorough 4..14); "
+    "every execution with <= 2 (3) deviations: each busy and refusal enqueue status, failed / foreign-tag / foreign-destination / duplicate / unsolicited / early confirmation, silence to 120 s, "
+    "address-lookup miss, cancellation. Reference outcome per packet (normal return iff accepted and own confirmation success; DeliveryError on refusal, third busy answer + 1.5 s, failed "
+    "confirmation; TimeoutError at +120 s), empty pending table at the end, retry spacing, and set-up/send blocks judged on the NCP's request log.",
+    "Timeouts and retry delays hard-coded in the oracle; stateless search ('states' = visited world states, no merging); zigpy.util.Requests back-filled.",
+    "DESIGN.md section 3 C12")
+
 ALL = ["C%02d" % i for i in range(1, 21)]
 
 
